@@ -56,6 +56,7 @@ class OpUU(Contract):
     skolem_instances = False
     def requires(self, c): return []
     def value(self, c, j): raise NotImplementedError
+    def fvalue(self, c, j): return self.value(c, j)
     def ensures(self, c):
         r = c.retdata(); fresh = c.ret.attrs['data'].base not in (c._names['self.data'], c._names['rhs.data'])
         return [('result.data[d] = ring operation of R[t]/(t^D)', c.forall(0, c.D, lambda j: r[j] == self.value(c, j))), ('result is a new object', z3.BoolVal(bool(fresh)))]
@@ -71,8 +72,10 @@ class OpUC(Contract):
     file = 'algopy/utpm/utpm.py'; objs = ('self',); arrays = ('self.data',); scalars = {'rhs': 'real'}; modifies = (); returns = 'any'
     cfgs = {'float': {'rhs': 'real'}, 'int': {'rhs': 'int'}, 'ndarray': {'rhs': 'ndarray'}}
     property_ids = ('C02', 'C14', 'C12')
+    cname = 'rhs'
     def cval(self, c):
-        v = scalar_of(c, 'rhs'); return toR(v.t)
+        v = scalar_of(c, self.cname); return toR(v.t)
+    def fvalue(self, c, j): return self.value(c.pre['self.data'], self.cval(c), j)
     def ensures(self, c):
         r = c.retdata(); x = c.pre['self.data']; k = self.cval(c); fresh = c.ret.attrs['data'].base != c._names['self.data']
         return [('result.data[d] = x (op) constant-as-degree-0-polynomial', c.forall(0, c.D, lambda j: r[j] == self.value(x, k, j))), ('result is a new object', z3.BoolVal(bool(fresh)))]
@@ -246,3 +249,34 @@ class PbTrigW(Contract):
 class PbSinW(PbTrigW): qual = 'UTPM.pb_sin'; bar = 'sbar'; val = 's'; other = S.COS; sign = 1
 @register
 class PbCosW(PbTrigW): qual = 'UTPM.pb_cos'; bar = 'cbar'; val = 'c'; other = S.SIN; sign = -1
+
+
+# ------------------------------------------------------------------------------------------------ reflected operators, negation
+class OpRC(OpUC):
+    """constant (op) self: Python calls self.__rop__(constant).  Same three kinds of constant as OpUC."""
+    pass
+def RC(name, val, req=lambda c_, x: []):
+    cls = type('RC_' + name, (OpRC,), {'qual': 'UTPM.' + name, 'value': staticmethod(val), 'requires': lambda self, c: req(self.cval(c), c.pre['self.data'])})
+    inst = cls(); REG['UTPM.%s[const]' % name] = inst; return cls
+RC('__radd__', lambda x, k, j: z3.If(j == 0, x[j] + k, x[j]))
+_rs = RC('__rsub__', lambda x, k, j: z3.If(j == 0, k - x[j], -x[j]))
+_rs.cname = 'other'; _rs.scalars = {'other': 'real'}; _rs.cfgs = {'float': {'other': 'real'}, 'int': {'other': 'int'}, 'ndarray': {'other': 'ndarray'}}
+RC('__rmul__', lambda x, k, j: x[j] * k)
+
+@register
+class Neg(Contract):
+    """-x (UTPM.__neg__ -> UTPM.neg -> -1*x -> __rmul__ -> __mul__): every coefficient negated, a new object"""
+    file = 'algopy/utpm/utpm.py'; qual = 'UTPM.__neg__'; objs = ('self',); arrays = ('self.data',); modifies = (); returns = 'any'
+    cfgs = {'distinct': {}}; property_ids = ('C02', 'C14', 'C12')
+    def fvalue(self, c, j): return -c.pre['self.data'][j]
+    def ensures(self, c):
+        r = c.retdata(); fresh = c.ret.attrs['data'].base != c._names['self.data']
+        return [('result.data[d] = -x[d]', c.forall(0, c.D, lambda j: r[j] == self.fvalue(c, j))), ('result is a new object', z3.BoolVal(bool(fresh)))]
+
+@register
+class NegCls(Neg):
+    qual = 'UTPM.neg'; objs = ('x',); arrays = ('x.data',); scalars = {'out': 'none'}; cfgs = {'distinct': {'out': None}}
+    def fvalue(self, c, j): return -c.pre['x.data'][j]
+    def ensures(self, c):
+        r = c.retdata(); fresh = c.ret.attrs['data'].base != c._names['x.data']
+        return [('result.data[d] = -x[d]', c.forall(0, c.D, lambda j: r[j] == self.fvalue(c, j))), ('result is a new object', z3.BoolVal(bool(fresh)))]
